@@ -13,7 +13,7 @@ def gen(ctx, q):
     for (f, ch) in combos:
         name = formats.name(f)
         mj, sb = name.split("/")[0], name.split("/")[1]
-        if q and ch > 8 and hash((f, ctx.seed)) % 4:
+        if q and ch > 8 and vlib.dhash((f, ctx.seed)) % 4:
             continue
         ts = "fd" if sb in ("FLOAT", "DOUBLE") else "sifd"
         ns = [0, 1, 2, 7, 64, 505, 1001] if not q else [0, 1, rng.choice([2, 7, 64]), rng.choice([505, 1001])]
@@ -113,6 +113,8 @@ def run(ctx):
                 B = blocks.get((a["f"], a["ch"], a["rate"]))
                 if a["mj"] == "RAW" and a["sb"].startswith("DWVW"):
                     B = 13              # header-less DWVW: the codec's flush samples cannot be told from data (DESIGN.md section 8)
+                if formats.is_granular(a["f"]):
+                    B = 1               # PCM / float / G.711: one frame is the unit; a measured "block" would hide an off-by-one in the frame count
                 if B is None:
                     B = 1 << 30         # no one-frame file of this exact format / rate in the run: only F >= N is checked
                 pad_ok = F == N + 1 and (N * int(d["blockwidth"] or 0)) % 2 == 1      # one pad frame where the container pads odd byte counts
